@@ -21,42 +21,37 @@ theorem openW_cases (d : Dest) (ow : Bool) (plan : Fault) :
   unfold openW fsCreateTmp
   cases d <;> dsimp only <;> (repeat' split) <;> simp
 
-theorem exitW_spec (fs : FS) (exc : Option Err) (plan : Fault) :
-    (exitW fs exc plan).1.tmp = none ∧
-    ((exitW fs exc plan).2 ≠ none → (exitW fs exc plan).1.dest = fs.dest) ∧
-    ((exitW fs exc plan).2 = none → exc = none ∧ ∃ c, fs.tmp = some c ∧ (exitW fs exc plan).1.dest = .file c) := by
-  unfold exitW
-  split
-  · simp [fsRemoveTmp]
-  · split
-    · simp [fsRemoveTmp]
-    · split
-      · simp [fsRemoveTmp]
-      · split
-        · next fs' h =>
-          unfold fsReplace at h
-          split at h <;> simp_all
-          all_goals (subst h; simp)
-        · simp [fsRemoveTmp]
+theorem exitW_spec (w : W) (exc : Option Err) (plan : Fault) :
+    (exitW w exc plan).1.tmp = none ∧
+    ((exitW w exc plan).2 ≠ none → (exitW w exc plan).1.dest = w.fs.dest) ∧
+    ((exitW w exc plan).2 = none →
+      exc = none ∧ ∃ t, w.fs.tmp = some t ∧ (exitW w exc plan).1.dest = .file (t ++ w.buf)) := by
+  unfold exitW closeW
+  cases htmp : w.fs.tmp <;> cases hd : w.fs.dest <;> cases exc <;> cases plan <;>
+    simp [fsRemoveTmp, fsFlushTmp, fsReplace, htmp, hd] <;> (repeat' split) <;> simp_all
 
-/-- the core, for any statement sequence: no temporary is left; the destination is what it was, or the
-    complete text; a normal return means the complete text; an exception that is not raised by
-    `_handle_warnings` (i.e. after the commit) means the destination is what it was. -/
-theorem atomic_seq (seq : List Seg) (p : Problem) (d : Dest) (ow : Bool) (plan : Fault) :
-    (writeToFileSeq seq p ⟨d, none⟩ ow plan).2.tmp = none ∧
-    ((writeToFileSeq seq p ⟨d, none⟩ ow plan).2.dest = d ∨
-      ∃ out, complete p seq = some out ∧ (writeToFileSeq seq p ⟨d, none⟩ ow plan).2.dest = .file out) ∧
-    ((writeToFileSeq seq p ⟨d, none⟩ ow plan).1 = none →
-      ∃ out, complete p seq = some out ∧ (writeToFileSeq seq p ⟨d, none⟩ ow plan).2.dest = .file out) ∧
-    ((writeToFileSeq seq p ⟨d, none⟩ ow plan).1 ≠ none → (∀ e, plan ≠ .warn e) →
-      (writeToFileSeq seq p ⟨d, none⟩ ow plan).2.dest = d) := by
-  unfold writeToFileSeq
+/-- a failing close raises, whatever prefix of the buffer it managed to flush -/
+theorem exitW_close (w : W) (exc : Option Err) (n c : Nat) : (exitW w exc (.close n c)).2 ≠ none := by
+  simp [exitW, closeW]
+
+/-- the core, for any statement sequence and any buffering policy: no temporary is left; the destination
+    is what it was, or the complete text; a normal return means the complete text; an exception that is
+    not raised by `_handle_warnings` (i.e. after the commit) means the destination is what it was. -/
+theorem atomic_seq (seq : List Seg) (p : Problem) (d : Dest) (ow : Bool) (plan : Fault) (sched : Nat → Bool) :
+    (writeToFileSeq seq p ⟨d, none⟩ ow plan sched).2.tmp = none ∧
+    ((writeToFileSeq seq p ⟨d, none⟩ ow plan sched).2.dest = d ∨
+      ∃ out, complete p seq = some out ∧ (writeToFileSeq seq p ⟨d, none⟩ ow plan sched).2.dest = .file out) ∧
+    ((writeToFileSeq seq p ⟨d, none⟩ ow plan sched).1 = none →
+      ∃ out, complete p seq = some out ∧ (writeToFileSeq seq p ⟨d, none⟩ ow plan sched).2.dest = .file out) ∧
+    ((writeToFileSeq seq p ⟨d, none⟩ ow plan sched).1 ≠ none → (∀ e, plan ≠ .warn e) →
+      (writeToFileSeq seq p ⟨d, none⟩ ow plan sched).2.dest = d) := by
+  unfold writeToFileSeq writeToFileWith
   rcases openW_cases d ow plan with ⟨e, h⟩ | h
   · rw [h]; simp
   · rw [h]; dsimp only
-    generalize hr : runSeq plan p { fs := ⟨d, some []⟩, nfmt := 0, nwr := 0, lineno := 1 } seq = r
+    generalize hr : runSeq plan p { fs := ⟨d, some []⟩, buf := [], autoFlush := sched, nfmt := 0, nwr := 0, lineno := 1 } seq = r
     have hd : r.1.fs.dest = d := by rw [← hr, runSeq_dest]
-    have ⟨ht, herr, hok⟩ := exitW_spec r.1.fs r.2 plan
+    have ⟨ht, herr, hok⟩ := exitW_spec r.1 r.2 plan
     split
     · next fs2 e hx =>
       rw [hx] at ht herr
@@ -66,14 +61,25 @@ theorem atomic_seq (seq : List Seg) (p : Problem) (d : Dest) (ow : Bool) (plan :
     · next fs2 hx =>
       rw [hx] at ht hok
       dsimp only at ht hok
-      obtain ⟨hexc, c, hc, hdest⟩ := hok rfl
-      have hrun : runSeq plan p { fs := ⟨d, some []⟩, nfmt := 0, nwr := 0, lineno := 1 } seq = (r.1, none) := by
+      obtain ⟨hexc, t, hc, hdest⟩ := hok rfl
+      have hrun : runSeq plan p { fs := ⟨d, some []⟩, buf := [], autoFlush := sched, nfmt := 0, nwr := 0, lineno := 1 } seq
+          = (r.1, none) := by
         rw [hr, ← hexc]
-      obtain ⟨out, h1, h2, h3⟩ := runSeq_ok hrun (c := []) rfl
+      obtain ⟨out, h1, h3, h2⟩ := runSeq_ok hrun
+      obtain ⟨t', ht', hacc⟩ := h2 [] ⟨[], rfl, rfl⟩
       have hcomp : complete p seq = some out := by simp [complete, h1, h3]
       have hfile : fs2.dest = .file out := by
-        rw [hdest]; rw [h2] at hc; simp at hc; rw [hc]
+        rw [hdest]; rw [ht'] at hc; cases hc; simpa using congrArg Dest.file hacc
       cases plan <;> simp [ht, hcomp, hfile]
+
+theorem render_complete {p : Problem} {out : List String} (h : render p = some out) :
+    renderSeq p MontePyVerif.Gen.WriteOrder.sequence = some out ∧ out.all encodable = true := by
+  unfold render complete at h
+  split at h
+  · split at h
+    · cases h; exact ⟨by assumption, by assumption⟩
+    · cases h
+  · cases h
 
 /-! ## the obligations of DESIGN.md section 6, C15 -/
 
@@ -92,58 +98,79 @@ def demoText : List String :=
 
 /-- **C15_guards** — the truth table of the guards: an existing file is not replaced without
     `overwrite=True` (FileExistsError), a directory is never written to (IsADirectoryError); in both cases
-    nothing at all happens to the file system, whatever the problem and the fault plan. -/
-theorem C15_guards (p : Problem) (plan : Fault) :
-    (∀ c, writeToFile p ⟨.file c, none⟩ false plan = (some .fileExists, ⟨.file c, none⟩)) ∧
-    (∀ ow, writeToFile p ⟨.dir, none⟩ ow plan = (some .isADirectory, ⟨.dir, none⟩)) := by
+    nothing at all happens to the file system, whatever the problem, the fault plan and the buffering. -/
+theorem C15_guards (p : Problem) (plan : Fault) (sched : Nat → Bool) :
+    (∀ c, writeToFile p ⟨.file c, none⟩ false plan sched = (some .fileExists, ⟨.file c, none⟩)) ∧
+    (∀ ow, writeToFile p ⟨.dir, none⟩ ow plan sched = (some .isADirectory, ⟨.dir, none⟩)) := by
   constructor
   · intro c
     have : "FileExistsError" ∈ MontePyVerif.Gen.WriteOrder.openGuards := by decide
-    simp [writeToFile, writeToFileSeq, openW, this]
+    simp [writeToFile, writeToFileSeq, writeToFileWith, openW, this]
   · intro ow
     have : "IsADirectoryError" ∈ MontePyVerif.Gen.WriteOrder.openGuards := by decide
-    simp [writeToFile, writeToFileSeq, openW, this]
+    simp [writeToFile, writeToFileSeq, writeToFileWith, openW, this]
 
 example : writeToFile demo ⟨.file ["the original"], none⟩ false .none = (some .fileExists, ⟨.file ["the original"], none⟩) :=
-  (C15_guards demo .none).1 _
+  (C15_guards demo .none noAutoFlush).1 _
 
-/-- the statement of C15 at full strength -/
+/-- the statement of C15 at full strength: every problem, every prior state of the destination, either
+    flag, every fault plan (a failing close after **any prefix** of the buffered text included), and
+    every buffering policy of the handle -/
 def C15_atomic_statement : Prop :=
-  ∀ (p : Problem) (d : Dest) (ow : Bool) (plan : Fault),
-    ((writeToFile p ⟨d, none⟩ ow plan).2.dest = d ∨
-      ∃ out, render p = some out ∧ (writeToFile p ⟨d, none⟩ ow plan).2.dest = .file out) ∧
-    ((writeToFile p ⟨d, none⟩ ow plan).1 = none →
-      ∃ out, render p = some out ∧ (writeToFile p ⟨d, none⟩ ow plan).2.dest = .file out)
+  ∀ (p : Problem) (d : Dest) (ow : Bool) (plan : Fault) (sched : Nat → Bool),
+    ((writeToFile p ⟨d, none⟩ ow plan sched).2.dest = d ∨
+      ∃ out, render p = some out ∧ (writeToFile p ⟨d, none⟩ ow plan sched).2.dest = .file out) ∧
+    ((writeToFile p ⟨d, none⟩ ow plan sched).1 = none →
+      ∃ out, render p = some out ∧ (writeToFile p ⟨d, none⟩ ow plan sched).2.dest = .file out)
 
-/-- **C15_atomic** — for every problem, destination state, `overwrite` and fault plan: afterwards the
-    destination is exactly what it was or the complete text of the problem; and a call that returns
-    normally has left the complete text. -/
+/-- **C15_atomic** — afterwards the destination is exactly what it was or the complete text of the
+    problem; and a call that returns normally has left the complete text. -/
 theorem C15_atomic : C15_atomic_statement := by
-  intro p d ow plan
-  have h := atomic_seq MontePyVerif.Gen.WriteOrder.sequence p d ow plan
+  intro p d ow plan sched
+  have h := atomic_seq MontePyVerif.Gen.WriteOrder.sequence p d ow plan sched
   exact ⟨h.2.1, h.2.2.1⟩
 
 /-- **C15_atomic_written** — the same for the writer as it is now (trailing blanks of every formatted
-    line are dropped before it is written): the destination is what it was or the complete text. -/
-theorem C15_atomic_written (p : Problem) (d : Dest) (ow : Bool) (plan : Fault) :
-    (writeToFileNow p ⟨d, none⟩ ow plan).2.tmp = none ∧
-    ((writeToFileNow p ⟨d, none⟩ ow plan).2.dest = d ∨
-      ∃ ls, renderNow p = some ls ∧ (writeToFileNow p ⟨d, none⟩ ow plan).2.dest = .file ls) := by
-  have h := C15_atomic p.strip d ow plan
-  have t := (atomic_seq MontePyVerif.Gen.WriteOrder.sequence p.strip d ow plan).1
+    line are dropped before it is written), over the four-operation file interface (write into the
+    buffer, flush of any prefix, `os.replace`, remove): for every fault plan — in particular
+    `Fault.close n c`, a close that fails after `n` lines and `c` characters of the buffer reached the
+    file — and every buffering policy, no temporary is left and the destination is what it was or the
+    complete text.  It holds because `exitW` closes *before* it renames. -/
+theorem C15_atomic_written (p : Problem) (d : Dest) (ow : Bool) (plan : Fault) (sched : Nat → Bool) :
+    (writeToFileNow p ⟨d, none⟩ ow plan sched).2.tmp = none ∧
+    ((writeToFileNow p ⟨d, none⟩ ow plan sched).2.dest = d ∨
+      ∃ ls, renderNow p = some ls ∧ (writeToFileNow p ⟨d, none⟩ ow plan sched).2.dest = .file ls) := by
+  have h := C15_atomic p.strip d ow plan sched
+  have t := (atomic_seq MontePyVerif.Gen.WriteOrder.sequence p.strip d ow plan sched).1
   exact ⟨t, by simpa [writeToFileNow, renderNow] using h.1⟩
 
 /-- **C15_no_temp_left** — on every path (normal return or any exception) no temporary file remains. -/
-theorem C15_no_temp_left (p : Problem) (d : Dest) (ow : Bool) (plan : Fault) :
-    (writeToFile p ⟨d, none⟩ ow plan).2.tmp = none :=
-  (atomic_seq MontePyVerif.Gen.WriteOrder.sequence p d ow plan).1
+theorem C15_no_temp_left (p : Problem) (d : Dest) (ow : Bool) (plan : Fault) (sched : Nat → Bool) :
+    (writeToFile p ⟨d, none⟩ ow plan sched).2.tmp = none :=
+  (atomic_seq MontePyVerif.Gen.WriteOrder.sequence p d ow plan sched).1
 
 /-- **C15_error_unchanged** — if the call raises (and the exception does not come from the warning
     report that follows the commit) the destination is exactly what it was. -/
-theorem C15_error_unchanged (p : Problem) (d : Dest) (ow : Bool) (plan : Fault)
-    (herr : (writeToFile p ⟨d, none⟩ ow plan).1 ≠ none) (hw : ∀ e, plan ≠ .warn e) :
-    (writeToFile p ⟨d, none⟩ ow plan).2.dest = d :=
-  (atomic_seq MontePyVerif.Gen.WriteOrder.sequence p d ow plan).2.2.2 herr hw
+theorem C15_error_unchanged (p : Problem) (d : Dest) (ow : Bool) (plan : Fault) (sched : Nat → Bool)
+    (herr : (writeToFile p ⟨d, none⟩ ow plan sched).1 ≠ none) (hw : ∀ e, plan ≠ .warn e) :
+    (writeToFile p ⟨d, none⟩ ow plan sched).2.dest = d :=
+  (atomic_seq MontePyVerif.Gen.WriteOrder.sequence p d ow plan sched).2.2.2 herr hw
+
+/-- **C15_close_fault_unchanged** — a close that fails, after whatever prefix of the buffered text it
+    flushed, makes the call raise and leaves the destination exactly as it was. -/
+theorem C15_close_fault_unchanged (p : Problem) (d : Dest) (ow : Bool) (n c : Nat) (sched : Nat → Bool) :
+    (writeToFile p ⟨d, none⟩ ow (.close n c) sched).1 ≠ none ∧
+    (writeToFile p ⟨d, none⟩ ow (.close n c) sched).2.dest = d := by
+  have hne : (writeToFile p ⟨d, none⟩ ow (.close n c) sched).1 ≠ none := by
+    unfold writeToFile writeToFileSeq writeToFileWith
+    rcases openW_cases d ow (.close n c) with ⟨e, h⟩ | h
+    · rw [h]; simp
+    · rw [h]; dsimp only
+      split
+      · simp
+      · next fs2 hx =>
+        exact absurd (by rw [hx]) (exitW_close _ _ n c)
+  exact ⟨hne, C15_error_unchanged p d ow _ sched hne (by intro e; simp)⟩
 
 -- non-vacuity: an invalid new cell and an existing destination (the witness of the defect before the repair)
 example : writeToFile demoInvalid ⟨.file ["the original"], none⟩ true .none
@@ -151,44 +178,87 @@ example : writeToFile demoInvalid ⟨.file ["the original"], none⟩ true .none
 -- a full disk in the middle of the sixth line
 example : writeToFile demo ⟨.file ["the original"], none⟩ true (.write 5 3)
     = (some .osError, ⟨.file ["the original"], none⟩) := by decide
+-- a close that fails after 4 lines and 2 characters of the buffer reached the temporary
+example : writeToFile demo ⟨.file ["the original"], none⟩ true (.close 4 2)
+    = (some .osError, ⟨.file ["the original"], none⟩) := by decide
+-- the same with a buffer that is written out after every third write call
+example : writeToFile demo ⟨.file ["the original"], none⟩ true (.close 1 0) (fun k => k % 3 == 2)
+    = (some .osError, ⟨.file ["the original"], none⟩) := by decide
 -- a failure after the commit: the call raises, the destination is complete
 example : writeToFile demo ⟨.file ["the original"], none⟩ true (.warn (.other "AttributeError"))
     = (some (.other "AttributeError"), ⟨.file demoText, none⟩) := by decide
 
+/-- the statement of C15 for the order *rename first, close afterwards* (`exitWRenameFirst`) -/
+def C15_atomic_rename_first_statement : Prop :=
+  ∀ (p : Problem) (d : Dest) (ow : Bool) (plan : Fault) (sched : Nat → Bool),
+    (writeToFileRenameFirst p ⟨d, none⟩ ow plan sched).2.dest = d ∨
+      ∃ out, renderNow p = some out ∧ (writeToFileRenameFirst p ⟨d, none⟩ ow plan sched).2.dest = .file out
+
+/-- **C15_atomic_rename_first_refuted** — renaming the temporary onto the destination *before* it is
+    closed (the `os.fsync; os.replace; close` order without a flush) destroys the destination: the close
+    flushes Python's buffer into the file that already has the destination's name, and when it fails
+    the original is gone and a truncated file is left.  Witness: the demo problem over an existing file,
+    close failing before anything was flushed — the destination is an empty file. -/
+theorem C15_atomic_rename_first_refuted : ¬ C15_atomic_rename_first_statement := by
+  intro h
+  have h1 := h demo (.file ["the original"]) true (.close 0 0) noAutoFlush
+  have hv : writeToFileRenameFirst demo ⟨.file ["the original"], none⟩ true (.close 0 0) noAutoFlush
+      = (some .osError, ⟨.file [], none⟩) := by decide
+  have hr : renderNow demo = some demoText := by decide
+  rw [hv, hr] at h1
+  simp [demoText] at h1
+
+-- the refuted order with a failing close after 5 lines: a truncated problem where the original was
+example : writeToFileRenameFirst demo ⟨.file ["the original"], none⟩ true (.close 5 0)
+    = (some .osError, ⟨.file ["MESSAGE: outp=o", "", "demo", "1 0 -1", "2 0 1"], none⟩) := by decide
+
 /-- **C15_complete_when_no_fault** — the writer does write: with no fault, a destination that passes
     the guards and a problem whose objects all format, the call returns normally and the destination is
     the complete text (so `C15_atomic` is not satisfied by never committing). -/
-theorem C15_complete_when_no_fault (p : Problem) (d : Dest) (ow : Bool) (out : List String)
+theorem C15_complete_when_no_fault (p : Problem) (d : Dest) (ow : Bool) (out : List String) (sched : Nat → Bool)
     (hd : d = .absent ∨ (∃ c, d = .file c) ∧ ow = true) (h : render p = some out) :
-    writeToFile p ⟨d, none⟩ ow .none = (none, ⟨.file out, none⟩) := by
-  unfold render complete at h
-  split at h
-  · next out' hr =>
-    split at h
-    · next henc =>
-      cases h
-      have hopen : openW ⟨d, none⟩ ow .none = (⟨d, some []⟩, none) := by
-        rcases hd with rfl | ⟨⟨c, rfl⟩, rfl⟩ <;> simp [openW, fsCreateTmp]
-      obtain ⟨w', hrun⟩ := runSeq_none p { fs := ⟨d, some []⟩, nfmt := 0, nwr := 0, lineno := 1 }
-        MontePyVerif.Gen.WriteOrder.sequence out hr henc
-      obtain ⟨o2, h1, h2, -⟩ := runSeq_ok hrun (c := []) rfl
-      have ho : o2 = out := by rw [hr] at h1; exact (Option.some.inj h1).symm
-      subst ho
-      have hdest : w'.fs.dest = d := by
-        have := runSeq_dest .none p { fs := ⟨d, some []⟩, nfmt := 0, nwr := 0, lineno := 1 } MontePyVerif.Gen.WriteOrder.sequence
-        rw [hrun] at this; exact this
-      have hfs : w'.fs = ⟨d, some o2⟩ := by
-        cases hw : w'.fs with
-        | mk dd tt => rw [hw] at hdest h2; simp at hdest h2; simp [hdest, h2]
-      have hexit : exitW w'.fs none .none = (⟨.file o2, none⟩, none) := by
-        rw [hfs]
-        rcases hd with rfl | ⟨⟨c, rfl⟩, rfl⟩ <;> simp [exitW, fsReplace]
-      simp only [writeToFile, writeToFileSeq, hopen, hrun, hexit]
-    · cases h
-  · cases h
+    writeToFile p ⟨d, none⟩ ow .none sched = (none, ⟨.file out, none⟩) := by
+  have hat := atomic_seq MontePyVerif.Gen.WriteOrder.sequence p d ow .none sched
+  -- it is enough to show that the call returns normally
+  suffices hnone : (writeToFile p ⟨d, none⟩ ow .none sched).1 = none by
+    unfold writeToFile at hnone ⊢
+    obtain ⟨o2, ho2, hdest⟩ := hat.2.2.1 hnone
+    have : o2 = out := by
+      have h' : render p = some o2 := ho2
+      rw [h] at h'; exact (Option.some.inj h').symm
+    subst this
+    have htmp := hat.1
+    generalize hres : writeToFileSeq MontePyVerif.Gen.WriteOrder.sequence p ⟨d, none⟩ ow .none sched = res
+      at hnone hdest htmp
+    obtain ⟨r, ⟨dd, tt⟩⟩ := res
+    simp only at hnone hdest htmp
+    have hdest' : dd = .file o2 := hdest
+    subst hnone hdest' htmp
+    rfl
+  have hren := render_complete h
+  obtain ⟨hr, henc⟩ := hren
+  have hopen : openW ⟨d, none⟩ ow .none = (⟨d, some []⟩, none) := by
+    rcases hd with rfl | ⟨⟨c, rfl⟩, rfl⟩ <;> simp [openW, fsCreateTmp]
+  obtain ⟨w', hrun⟩ := runSeq_none p { fs := ⟨d, some []⟩, buf := [], autoFlush := sched, nfmt := 0, nwr := 0, lineno := 1 }
+    MontePyVerif.Gen.WriteOrder.sequence out hr henc
+  obtain ⟨o2, -, -, h2⟩ := runSeq_ok hrun
+  obtain ⟨t, ht, -⟩ := h2 [] ⟨[], rfl, rfl⟩
+  have hdest : w'.fs.dest = d := by
+    have := runSeq_dest .none p { fs := ⟨d, some []⟩, buf := [], autoFlush := sched, nfmt := 0, nwr := 0, lineno := 1 }
+      MontePyVerif.Gen.WriteOrder.sequence
+    rw [hrun] at this; exact this
+  have hexit : (exitW w' none .none).2 = none := by
+    rcases hd with rfl | ⟨⟨c, rfl⟩, rfl⟩ <;>
+      simp [exitW, closeW, fsFlushTmp, fsReplace, ht, hdest]
+  simp only [writeToFile, writeToFileSeq, writeToFileWith, hopen, hrun]
+  generalize hx : exitW w' none .none = x at hexit
+  obtain ⟨fs2, e2⟩ := x
+  simp only at hexit
+  subst hexit
+  rfl
 
 example : writeToFile demo ⟨.file ["the original"], none⟩ true .none = (none, ⟨.file demoText, none⟩) :=
-  C15_complete_when_no_fault demo _ true demoText (Or.inr ⟨⟨_, rfl⟩, rfl⟩) (by decide)
+  C15_complete_when_no_fault demo _ true demoText noAutoFlush (Or.inr ⟨⟨_, rfl⟩, rfl⟩) (by decide)
 
 /-! ## histories: any sequence of calls on the same path -/
 
@@ -196,15 +266,16 @@ structure Call where
   problem : Problem
   overwrite : Bool
   plan : Fault
+  sched : Nat → Bool := noAutoFlush
 
 /-- the user's script: one `write_to_file` after the other on the same path -/
 def runHistory (fs : FS) : List Call → FS
   | [] => fs
-  | c :: t => runHistory (writeToFile c.problem fs c.overwrite c.plan).2 t
+  | c :: t => runHistory (writeToFile c.problem fs c.overwrite c.plan c.sched).2 t
 
-/-- **C15_history** — after any history of calls (each with its own problem, flag and fault) the
-    destination is what it was at the start or the complete text of one of the problems written, and no
-    temporary file is left. -/
+/-- **C15_history** — after any history of calls (each with its own problem, flag, fault and buffering)
+    the destination is what it was at the start or the complete text of one of the problems written,
+    and no temporary file is left. -/
 theorem C15_history (calls : List Call) (d : Dest) :
     (runHistory ⟨d, none⟩ calls).tmp = none ∧
     ((runHistory ⟨d, none⟩ calls).dest = d ∨
@@ -213,9 +284,9 @@ theorem C15_history (calls : List Call) (d : Dest) :
   | nil => exact ⟨rfl, Or.inl rfl⟩
   | cons c t ih =>
     simp only [runHistory]
-    have htmp := C15_no_temp_left c.problem d c.overwrite c.plan
-    have hat := (C15_atomic c.problem d c.overwrite c.plan).1
-    generalize hfs : (writeToFile c.problem ⟨d, none⟩ c.overwrite c.plan).2 = fs at htmp hat
+    have htmp := C15_no_temp_left c.problem d c.overwrite c.plan c.sched
+    have hat := (C15_atomic c.problem d c.overwrite c.plan c.sched).1
+    generalize hfs : (writeToFile c.problem ⟨d, none⟩ c.overwrite c.plan c.sched).2 = fs at htmp hat
     obtain ⟨d', t'⟩ := fs
     simp only at htmp hat
     subst htmp
@@ -228,7 +299,8 @@ theorem C15_history (calls : List Call) (d : Dest) :
     · right; exact ⟨c', by simp [hc'], out, ho, hd'⟩
 
 example : (runHistory ⟨.absent, none⟩
-    [⟨demo, false, .none⟩, ⟨demoInvalid, true, .none⟩, ⟨demo, false, .none⟩, ⟨demo, true, .write 2 1⟩]).dest
+    [⟨demo, false, .none, noAutoFlush⟩, ⟨demoInvalid, true, .none, noAutoFlush⟩, ⟨demo, false, .none, noAutoFlush⟩,
+     ⟨demo, true, .write 2 1, noAutoFlush⟩, ⟨demo, true, .close 3 1, noAutoFlush⟩]).dest
     = .file demoText := by decide
 
 /-! ## block order (cited by other properties as C15_order_*) -/
